@@ -320,12 +320,15 @@ fn batch(ctx: &Ctx, rep: &mut Report, id: usize, b: usize) {
         proofs.push(p);
     }
     let replay = json!({"tier": if ctx.thorough() {"thorough"} else {"quick"}, "seed": ctx.seed, "leg": leg, "case": id, "descr": {"batch": k, "bits": n, "ext": ext}});
-    let sts: Vec<Stmt> = cases.iter().map(|c| c.statement_public()).collect();
+    // all three modes, public and seed-carrying statements mixed (odd members were proved with a seed)
+    let action = ACTIONS[b % 3];
+    let seeded_view = b % 2 == 1;
+    let sts: Vec<Stmt> = cases.iter().map(|c| if seeded_view { c.statement() } else { c.statement_public() }).collect();
     let run = |ctxs: &[Context]| -> (Vec<Event>, Vec<u64>, bool) {
         let originals: Vec<Transcript> = ctxs.iter().map(|c| c.transcript()).collect();
         probe::arm();
         let mut ts: Vec<Transcript> = originals.iter().map(|t| t.clone()).collect();
-        let ok = RangeProof::verify_batch(&mut ts, &sts, &proofs, VerifyAction::VerifyOnly).is_ok();
+        let ok = RangeProof::verify_batch(&mut ts, &sts, &proofs, action).is_ok();
         let ev = probe::take();
         // the first k Clone events are the harness's own forks, in member order
         let forks: Vec<u64> = ev.iter().filter(|e| e.kind == Kind::Clone).take(ctxs.len()).map(|e| e.id2).collect();
@@ -344,6 +347,13 @@ fn batch(ctx: &Ctx, rep: &mut Report, id: usize, b: usize) {
     let mut per_member: Vec<Vec<Vec<u8>>> = vec![];
     for i in 0..k {
         let mine: Vec<u64> = ids.iter().copied().filter(|x| forks.get(i).map(|f| descends(&ev, *x, *f)).unwrap_or(false)).collect();
+        // when nothing is verified, a member that yields no mask need not be looked at; every other member's
+        // challenges are drawn on exactly one transcript, descending from the one supplied for it
+        let may_be_skipped = action == VerifyAction::RecoverOnly && sts[i].seed_nonce.is_none();
+        if mine.is_empty() && may_be_skipped {
+            per_member.push(vec![]);
+            continue;
+        }
         if mine.len() != 1 {
             rep.violation(
                 "C04 batch-member-not-on-own-transcript",
@@ -389,7 +399,7 @@ fn batch(ctx: &Ctx, rep: &mut Report, id: usize, b: usize) {
             rep.violation("C04 batch-challenge-depends-on-other-member", &format!("batch member {i}: challenges changed although only member {j}'s transcript changed"), replay.clone());
         }
     }
-    if ok2 {
+    if ok2 && action != VerifyAction::RecoverOnly {
         rep.violation("C04 accepted-under-other-context batch", &format!("batch accepted although member {j}'s transcript context was altered"), replay.clone());
     }
     rep.sample(&format!("{GROUP}-batch"), json!({"batch": k, "bits": n, "ext": ext, "events": ev.len()}));
